@@ -4,12 +4,18 @@
 #include "common_types.h"
 #include "core_timing.h"
 
+#ifdef TEAKRA_VERIF
+struct TeakraVerifAccess; // verification hook: read/seed private state
+#endif
 namespace Teakra {
 
 class MemoryInterface;
 struct RegisterState;
 
 class Processor {
+#ifdef TEAKRA_VERIF
+    friend struct ::TeakraVerifAccess;
+#endif
 public:
     Processor(CoreTiming& core_timing, MemoryInterface& memory_interface);
     ~Processor();
